@@ -577,3 +577,55 @@ MUTANTS += [
  {"id": "c13-explicit-denom-positive-exponent", "prop": "C13", "file": _EC, "old": "            explicit_denom = Pow(explicit_denom, -exponent)\n        else:\n            explicit_denom = self.sympy", "new": "            explicit_denom = Pow(explicit_denom, exponent)\n        else:\n            explicit_denom = self.sympy"},
  {"id": "c13-explicit-denom-keeps-assumption", "prop": "C13", "file": "adcgen/expr_container.py", "old": "            explicit_denom = self.sympy\n        if return_sympy:\n            return explicit_denom\n        assumptions = self.assumptions\n        # remove the symbolic denom from the assumptions if necessary\n        if tensor_names.sym_orb_denom in self.antisym_tensors:\n            assumptions[\"antisym_tensors\"] = tuple(\n                n for n in assumptions[\"antisym_tensors\"]\n                if n != tensor_names.sym_orb_denom\n            )\n        return Expr(explicit_denom, **assumptions)", "new": "            explicit_denom = self.sympy\n        if return_sympy:\n            return explicit_denom\n        assumptions = self.assumptions\n        return Expr(explicit_denom, **assumptions)"},
 ]
+
+# format_prefactor under contract (C17)
+MUTANTS += [
+ {"id": "c17-pref-sign-swapped", "prop": "C17", "file": _GC,
+  "old": "    if number_pref < 0:\n        sign = \"-\"\n        number_pref *= -1\n    else:\n        sign = \"+\"",
+  "new": "    if number_pref > 0:\n        sign = \"-\"\n    else:\n        sign = \"+\"\n        number_pref *= -1"},
+ {"id": "c17-pref-symbol-multiplicity", "prop": "C17", "file": _GC,
+  "old": "        [obj.name for obj in term.objects if isinstance(obj.base, Symbol)\n         for _ in range(obj.exponent)]",
+  "new": "        [obj.name for obj in term.objects if isinstance(obj.base, Symbol)]"},
+ {"id": "c17-pref-backend-formatter-swapped", "prop": "C17", "file": _GC,
+  "old": "    elif backend == \"libtensor\":  # C++\n        number_pref = _format_cpp_prefactor(number_pref)",
+  "new": "    elif backend == \"libtensor\":  # C++\n        number_pref = _format_python_prefactor(number_pref)"},
+ {"id": "c17-pref-symbols-dropped-for-unit", "prop": "C17", "file": _GC,
+  "old": "    if symbol_pref:\n        return f\"{sign} {number_pref} * {symbol_pref}\"",
+  "new": "    if symbol_pref and number_pref != \"1\":\n        return f\"{sign} {number_pref} * {symbol_pref}\""},
+]
+HARMLESS += [
+ # the sign of a vanishing prefactor is unobservable
+ {"id": "c17-h-pref-sign-of-zero", "prop": "C17", "file": _GC,
+  "old": "    if number_pref < 0:\n        sign = \"-\"\n        number_pref *= -1\n    else:\n        sign = \"+\"",
+  "new": "    if number_pref <= 0:\n        sign = \"-\"\n        number_pref *= -1\n    else:\n        sign = \"+\""},
+]
+
+# gen_term_orders under contract (C02; shared by C03, C04, C05)
+_FN = "adcgen/func.py"
+MUTANTS += [
+ {"id": "c02-gto-range-excludes-order", "prop": "C02", "file": _FN,
+  "old": "    orders = (o for o in range(min_order, order + 1))", "new": "    orders = (o for o in range(min_order, order))"},
+ {"id": "c02-gto-range-from-zero", "prop": "C02", "file": _FN,
+  "old": "    orders = (o for o in range(min_order, order + 1))", "new": "    orders = (o for o in range(order + 1))"},
+ {"id": "c02-gto-filter-at-most", "prop": "C02", "file": _FN,
+  "old": "    return [comb for comb in combinations if sum(comb) == order]",
+  "new": "    return [comb for comb in combinations if sum(comb) <= order]"},
+ {"id": "c02-gto-filter-drops-first-part", "prop": "C02", "file": _FN,
+  "old": "    return [comb for comb in combinations if sum(comb) == order]",
+  "new": "    return [comb for comb in combinations if sum(comb[1:]) + min_order == order]"},
+ {"id": "c02-gto-reversed-tuples", "prop": "C02", "file": _FN,
+  "old": "    return [comb for comb in combinations if sum(comb) == order]",
+  "new": "    return [comb[::-1] for comb in combinations if sum(comb) == order and comb[0] <= comb[-1]]"},
+ {"id": "c02-gto-zero-refused", "prop": "C02", "file": _FN,
+  "old": "    if not all(isinstance(n, int) and n >= 0\n               for n in [order, term_length, min_order]):",
+  "new": "    if not all(isinstance(n, int) and n >= 0\n               for n in [order, term_length]) or min_order < 1:"},
+ {"id": "c02-gto-rebinding-before-consumption", "prop": "C02", "file": _FN,
+  "old": "    orders = (o for o in range(min_order, order + 1))\n    combinations = product(orders, repeat=term_length)",
+  "new": "    orders = (o for o in range(min_order, order + 1))\n    min_order = 0\n    combinations = product(orders, repeat=term_length)"},
+]
+HARMLESS += [
+ {"id": "c02-h-gto-list-instead-of-generator", "prop": "C02", "file": _FN,
+  "old": "    orders = (o for o in range(min_order, order + 1))", "new": "    orders = list(range(min_order, order + 1))"},
+ {"id": "c02-h-gto-range-direct", "prop": "C02", "file": _FN,
+  "old": "    orders = (o for o in range(min_order, order + 1))", "new": "    orders = range(min_order, order + 1)"},
+]
